@@ -10,7 +10,8 @@
    of `git rev-parse` (Resolve.resolves), of which real git is the judge on
    every run of the check (see DESIGN.md, C08). *)
 From Coq Require Import String.
-From GS Require Import GoSem Text Counts Repo Deferred Scan PathResolver PathProofs.
+From GS Require Import GoSem Text Counts Repo Deferred Scan PathResolver PathProofs Output ContentsBridge.
+From GSGen Require Import ContentsGen.
 Open Scope N_scope.
 
 Theorem C08_witness_hash : forall evs x,
@@ -62,3 +63,9 @@ Example C08_descriptions_example :
     path_of ex_hexo (fuel_of (ps_res st)) (ps_res st) 0 = str "refs/heads/main:d/e/f" /\
     pr_oid (get_path (ps_res st) 0) = 1.
 Proof. exact scan_descriptions_example. Qed.
+
+(* the path cited by every row is the one recorded for that row's own quantity: the pairing of value field and path field
+   in the Go literal of HistorySize.contents() is the pairing of Output.contents *)
+Theorem C08_contents_generated : forall r : report, to_tc r contents_gen = Some [contents r].
+Proof. exact contents_generated. Qed.
+Print Assumptions C08_contents_generated.
